@@ -125,6 +125,13 @@ class CallMixin:
                 if isinstance(v, VOpaque):
                     return VBool(models.valid_utf8(v.t))
                 return VBool(True)
+            if nm == 'occurs':
+                # occurs(x, lst): the object x ITSELF is an element of lst (identity; Python's `in` compares with ==)
+                x = self.res(self.ev(node.args[0]))
+                c = self.cell(self.res(self.ev(node.args[1])))
+                if c.seq is None:
+                    return VBool(False)
+                return VBool(z3.Contains(c.seq, z3.Unit(self.flat(x, c.kind))))
             if nm == 'joined':
                 v = self.res(self.ev(node.args[0]))
                 c = self.cell(v)
